@@ -7,7 +7,7 @@ from fractions import Fraction
 from ..core import Run, AnalysisError, dotted, norm
 from ..dim import World
 from ..units import unit_table, dimension_table, si_value, Dim, BASE
-from ..flow import Fn, kw, node_calls, node_of, monomial, conditions_for, stmt_of
+from ..flow import Fn, kw, node_calls, node_of, monomial, conditions_for, stmt_of, numeric_consts
 
 EXPLANATION = (
     "U1 convert_to returns, in the monomial domain over {value.scale_factor, target.scale_factor}, value^1 * target^-1 with "
@@ -207,8 +207,20 @@ def check(run: Run) -> None:
         run.ob("U5", "from_kelvin_quantity")
         sl = fq.slice(r, r.ast.value)
         calls = {fq.callee(node_of(fq.cfg, c) or r, c) for c in sl.call_nodes}
-        if CEL + ".from_kelvin" not in calls or "units.kelvin" not in sl.attrs or any(isinstance(x, ast.BinOp) for e in sl.exprs for x in ast.walk(e)):
-            run.violate("U5", f"{fq.qual}:route", fq.mod, r.ast, "from_kelvin_quantity does not route the kelvin value, unchanged, through from_kelvin")
+        offsets = any(isinstance(x, ast.BinOp) and isinstance(x.op, (ast.Add, ast.Sub)) for e in sl.exprs for x in ast.walk(e)) or \
+            any(c_ not in (0, 1) for c_ in numeric_consts(sl))
+        if CEL + ".from_kelvin" not in calls or "units.kelvin" not in sl.attrs or offsets or "value" not in sl.params:
+            run.violate("U5", f"{fq.qual}:route", fq.mod, r.ast, "from_kelvin_quantity does not route the value in kelvin (the quantity divided by the unit kelvin, no offset of its own) "
+                                                                 "through from_kelvin")
+        # the argument is a temperature: the library's own dimension check (directly, or through the library's convert_to) dominates the return
+        run.ob("U5", "from_kelvin_quantity:dimension-checked")
+        checks = [n for n in fq.cfg.stmt_nodes() for c in node_calls(n)
+                  if (fq.callee(n, c) or "").split(".")[-1] in ("assert_equivalent_dimension", ) and c.args and dotted(c.args[0]) == "value"
+                  or (fq.callee(n, c) == CONV + ".convert_to" and c.args and dotted(c.args[0]) == "value")]
+        if not any(fq.cfg.dominated_by(r, lambda y, k=k: y is k) or k is r for k in checks):
+            run.violate("U5", f"{fq.qual}:dimension", fq.mod, r.ast,
+                        "from_kelvin_quantity converts its argument without checking that it is a temperature (SymPy's convert_to plus subs(kelvin, 1) strips the unit whatever "
+                        "its exponent): 300 K**2 or 300/K come back as 26.85 degrees Celsius")
 
     _u7_purity(run)
     # ---- U6
@@ -228,6 +240,24 @@ def check(run: Run) -> None:
                         oku = True
     if not oku:
         run.violate("U6", f"{ev.qual}:substitution", ev.mod, ev.fn, "evaluate_expression does not replace every quantity atom q by convert_to_si(q) (possibly evalf'd)")
+    # every kind of leaf the quantity collector gives a scale factor to is evaluated: quantities AND unit prefixes
+    run.ob("U6", "evaluate_expression:leaf-kinds")
+    cq = run.src.need("symplyphysics.core.dimensions.collect_quantity")
+    leaf_kinds = set()
+    for st in cq.tree.body:
+        if isinstance(st, (ast.Assign, ast.AnnAssign)) and dotted(st.targets[0] if isinstance(st, ast.Assign) else st.target) == "_cases" and isinstance(st.value, ast.Dict):
+            for k, v in zip(st.value.keys, st.value.values):
+                h = next((f_ for f_ in cq.tree.body if isinstance(f_, ast.FunctionDef) and f_.name == dotted(v)), None)
+                if h is not None and not any(isinstance(x, ast.Call) and dotted(x.func) == "collect_quantity_factor_and_dimension" for x in ast.walk(h)) \
+                        and any(isinstance(x, ast.Attribute) and x.attr == "scale_factor" for x in ast.walk(h)):
+                    leaf_kinds.add((dotted(k) or "").split(".")[-1])
+    run.require(leaf_kinds >= {"SymQuantity", "Prefix"}, f"leaf kinds of the quantity collector not understood: {sorted(leaf_kinds)}")
+    handled = {(dotted(a) or "").split(".")[-1] for x in ast.walk(ev.fn) if isinstance(x, ast.Call) and isinstance(x.func, ast.Attribute) and x.func.attr == "atoms" for a in x.args}
+    missing = sorted(leaf_kinds - handled)
+    if missing:
+        run.violate("U6", f"{ev.qual}:leaf-kinds:{','.join(missing)}", ev.mod, ev.fn,
+                    f"evaluate_expression leaves {missing} atoms in the expression: the quantity collector gives them a scale factor (5 * units.kilo * units.meter is 5000 m), "
+                    f"so the evaluated expression is not a number and does not have the value of the input")
 
 
 def _u7_purity(run: Run) -> None:
